@@ -16,4 +16,7 @@ CONSTANTS
   Strict = FALSE
   WithServe = FALSE
   Hist = FALSE
+  SlackEarly = 0
+  SlackLate = 0
+  SlackSched = 0
 PROPERTIES C02_Live
